@@ -280,9 +280,15 @@ def check_row_search(model, rep):
     A[pos] / S[pos] at that position must therefore be guarded by a comparison of the position with the end of the searched slice
     (pos < len(S), or lo-offset pos < hi) - a comparison with any other length lets the next row's entry pass for this row's."""
     n = 0
-    for f in model.functions.values():
-        if not f.module.short.startswith('matrix') or isinstance(f.node, ast.Lambda):
-            continue
+    cands = [f for f in model.functions.values() if f.module.short.startswith('matrix') and not isinstance(f.node, ast.Lambda)]
+    # The rule has no fixed set of instances (a row search may be rewritten into a vectorised comparison, which has no position to guard), so its
+    # power is shown on every run by two built-in examples: the guarded lookup must be accepted and the unguarded one reported.
+    probe = _RowSearchProbe()
+    cands = [probe.fn('good', 'idiag = numpy.searchsorted(icols, irow)\n    return data[lo + idiag] if idiag < len(icols) and icols[idiag] == irow else 0'),
+             probe.fn('bad', 'idiag = numpy.searchsorted(icols, irow)\n    return data[lo + idiag] if idiag < len(data) and icols[idiag] == irow else 0')] + cands
+    real_rep = rep
+    for f in cands:
+        rep = probe if f.key.startswith('<probe>') else real_rep
         assigns = {}
         for s_ in ast.walk(f.node):
             if isinstance(s_, ast.Assign) and len(s_.targets) == 1:
@@ -346,8 +352,33 @@ def check_row_search(model, rep):
                        f'`{name}` = position of a column within the row slice {src(S)}: every read at that position is guarded by `{name} < {sorted(ends)[0]}`' if ok else
                        f'`{src(bad)}` reads at the searchsorted position `{name}` of the row slice {src(S)} without `{name} < {" / ".join(sorted(ends))}` holding: when the column is absent from the row the position is '
                        'the first entry of the next row, whose value is then taken for this row', statement=f'row-search {name}')
-    if n < 2:
-        raise AnalysisError(f'R15.10: only {n} row searches found (Matrix.diagonal and MKLMatrix._precon_sym_direct expected)')
+    rep = real_rep
+    if probe.results != {'<probe>:good': [True], '<probe>:bad': [False]}:
+        raise AnalysisError(f'R15.10: the built-in examples are not decided as expected ({probe.results}): the rule is broken')
+    model.func('matrix._base:Matrix.diagonal')     # anchor: the function exists (its row search may have been vectorised away)
+    rep.info(f'R15.10: {n - 2} row searches by searchsorted found in the matrix modules (plus 2 built-in examples)')
+
+
+class _RowSearchProbe:
+    """Two synthetic functions through which R15.10 shows on every run that it accepts a guarded and reports an unguarded row lookup."""
+
+    def __init__(self):
+        self.results = {}
+
+    def fn(self, name, text):
+        node = ast.parse(f'def {name}(data, indices, lo, hi, irow):\n    icols = indices[lo:hi]\n    {text}\n').body[0]
+
+        class F:
+            pass
+        f = F()
+        f.node, f.key, f.name = node, f'<probe>:{name}', name
+        f.where = lambda n=None: f'<probe>:{name}'
+        return f
+
+    def ob(self, rule, construct, where, ok, detail, **kw):
+        self.results.setdefault(construct, []).append(bool(ok))
+
+
 
 
 def _short_circuit_conditions(fn, node):
